@@ -81,7 +81,7 @@ func propsOfObligation(name string) []string {
 	if strings.HasPrefix(kind, "pool.") {
 		set["C16"] = true
 		set["C04"] = true
-		delete(set, "C01")
+		set["C01"] = true // termination of the scanner rests on the pooled cap (C16's measure uses it)
 	}
 	var out []string
 	for k := range set {
